@@ -66,7 +66,9 @@ class C07(EgSpec):
 
     def classify_known(self, stream, case, impl_obs, reason, known):
         for k in known.get('findings', []):
-            if k['property'] == 'C07' and k['match'] in reason:
+            # the listed findings are panics WHILE A JUSTIFIED UNION IS PROCESSED (history phase); a panic of explain_equivalence at the
+            # same source line, a rejected proof or any other location is a different violation and is reported
+            if k['property'] == 'C07' and k['match'] in reason and reason.startswith('a history of justified unions panicked'):
                 return k
         return None
 
